@@ -29,6 +29,8 @@ from __future__ import annotations
 
 import ast
 
+from fractions import Fraction
+
 from . import e2_formula as F
 from .core import Unsupported
 from .e1_srcmodel import dotted
@@ -82,6 +84,23 @@ def const_of(v):
 
 def is_full_slice(n):
     return isinstance(n, ast.Slice) and n.lower is None and n.upper is None and n.step is None
+
+
+def always_raises(stmts):
+    """every path through the statement list ends in `raise` (no return, no normal end) - decided on the shape of the code"""
+    for st in stmts:
+        if isinstance(st, ast.Raise):
+            return True
+        if isinstance(st, ast.Return):
+            return False
+        if isinstance(st, ast.If) and always_raises(st.body) and always_raises(st.orelse):
+            return True
+        if isinstance(st, (ast.For, ast.While, ast.Try, ast.With, ast.Continue, ast.Break)):
+            if isinstance(st, ast.With) and always_raises(st.body):
+                return True
+            if isinstance(st, (ast.Continue, ast.Break)):
+                return False
+    return False
 
 
 class _Continue(Exception):
@@ -181,6 +200,45 @@ class Block:
         return f"Block({self.hist.label}[{self.rowkey}]{' copy' if self.cols is not None else ''})"
 
 
+class Cols:
+    """the transposed view `X.T` of a Hist / Block: a sequence of column views"""
+
+    def __init__(self, block):
+        self.block = block
+
+    def refs(self):
+        return [ColRef(self.block, i) for i in range(self.block.hist.nt)]
+
+    def __repr__(self):
+        return f"Cols({self.block!r})"
+
+
+class ColRef:
+    """one column of a Hist / Block as a view: read when used, `c[:] = v` writes the column"""
+
+    def __init__(self, block, col):
+        self.block, self.col = block, col
+
+    def __repr__(self):
+        return f"ColRef({self.block!r}, {self.col})"
+
+
+class IterV:
+    """an iterator (itertools.accumulate, iter(...), zip / enumerate kept in a variable): the remaining items; next() and `for` consume them"""
+
+    def __init__(self, items):
+        self.items = list(items)
+        self.pos = 0
+
+    def rest(self):
+        r = self.items[self.pos:]
+        self.pos = len(self.items)
+        return r
+
+    def __repr__(self):
+        return f"IterV({len(self.items) - self.pos} left)"
+
+
 class Box:
     """a per-mode array of ModeEv: a value with identity (aliases share it)"""
 
@@ -203,8 +261,9 @@ class FuncV:
         return f"FuncV({self.kind})"
 
 
-REFS = (Hist, Block, Box, DictV, FuncV)
+REFS = (Hist, Block, Box, DictV, FuncV, Cols, ColRef, IterV)
 
+LIBRARY_ROOTS = {"np", "numpy", "la", "scipy", "math", "operator", "functools", "itertools", "linalg", "expmint", "ytools"}
 OPERATOR_FUNCS = {"add": ast.Add, "sub": ast.Sub, "mul": ast.Mult, "truediv": ast.Div, "matmul": ast.MatMult, "pow": ast.Pow, "and_": ast.BitAnd,
                   "or_": ast.BitOr, "xor": ast.BitXor}
 PURE_BUILTINS = {"len", "abs", "min", "max", "sum", "any", "all", "range", "zip", "enumerate", "reversed", "tuple", "list", "dict", "set", "sorted", "map",
@@ -223,6 +282,7 @@ def has_ref(v):
 # ---------------------------------------------------------------------------------------------------------------- the evaluator
 class Ev01(AutoEvaluator):
     LIMIT = 64
+    compare_value = True     # a comparison whose truth is decided is the value True / False (ModeEv: 1 / 0, see there)
 
     def __init__(self, fn=None, **kw):
         super().__init__(fn, **kw)
@@ -239,6 +299,7 @@ class Ev01(AutoEvaluator):
         self.raised = None       # the `raise` statement that ended the evaluated path, if any
         self.hists = []          # history arrays created by the evaluated code itself (np.zeros / np.empty with nt columns), shared with helpers
         self.fn = fn
+        self._forced = {}        # id(If statement) -> truth taken because the other arm only leads to `raise`
         self.skipped = []        # (statement, reason): regions with stores that were not executed (undecided test, loop that could not be enumerated)
 
     # ---- configuration inherited by the evaluator of an inlined helper
@@ -273,6 +334,8 @@ class Ev01(AutoEvaluator):
         n = unsym(v)
         if n is None:
             return not v.depends_on("None")
+        if "." in n and n.split(".")[0] in LIBRARY_ROOTS:
+            return True          # a library function / constant (np.multiply, la.lu_solve)
         return n in self.nonnull or n in self.distinct or as_str(v) is not None or n in self.inl or n in ("True", "False", "float", "complex", "int", "bool")
 
     def _atomic(self, v):
@@ -369,9 +432,23 @@ class Ev01(AutoEvaluator):
             return v.root().columns()
         if isinstance(v, Block):
             return v.columns()
+        if isinstance(v, Cols):
+            return v.block.columns()
+        if isinstance(v, ColRef):
+            return v.block.get(v.col)
         if isinstance(v, Box):
             return v.v
         return v
+
+    def transposed(self, b):
+        """X.T of a history array is the sequence of its column views; of that sequence, the array again"""
+        if isinstance(b, Hist):
+            return Cols(b.root())
+        if isinstance(b, Block):
+            return Cols(b)
+        if isinstance(b, Cols):
+            return b.block
+        return b
 
     def evr(self, node):
         """value of an expression with references (arrays with identity) kept"""
@@ -397,6 +474,20 @@ class Ev01(AutoEvaluator):
                 if mv is not None:
                     return mv
             return super()._ev(node)
+        if isinstance(node, ast.BoolOp):
+            for i, x in enumerate(node.values):
+                if i == len(node.values) - 1:
+                    return self._evr(x)
+                t = self.decide(x)
+                if t is None:
+                    break
+                if t == isinstance(node.op, ast.Or):
+                    return self._evr(x)            # `a or b` is a when a is true; `a and b` is a when a is false
+        if ((isinstance(node, ast.Compare) and len(node.ops) == 1) or (isinstance(node, ast.UnaryOp) and isinstance(node.op, ast.Not))) \
+                and type(self).compare_value:
+            t = self.decide(node)
+            if t is not None:
+                return F.sym("True" if t else "False")
         if isinstance(node, ast.Lambda):
             f = ast.FunctionDef(name="<lambda>", args=node.args, body=[ast.copy_location(ast.Return(value=node.body), node)], decorator_list=[], returns=None,
                                 type_comment=None, type_params=[])
@@ -418,8 +509,10 @@ class Ev01(AutoEvaluator):
             b = self._evr(node.value)                      # evaluated once (calls inside are recorded once)
             if is_unknown(b):
                 return b
-            if isinstance(b, (Hist, Block)):
-                b = self.plain(b) if node.attr != "T" else b
+            if isinstance(b, (Hist, Block, Cols)) and node.attr == "T":
+                return self.transposed(b)
+            if isinstance(b, (Hist, Block, Cols, ColRef)):
+                b = self.plain(b)
             if node.attr == "T" and isinstance(b, (tuple,) + REFS):
                 return b
             if isinstance(b, tuple) and not has_ref(b):
@@ -504,7 +597,7 @@ class Ev01(AutoEvaluator):
                 return a + b
         return super()._ev(node)
 
-    REFNODES = (_Lit, ast.Name, ast.Attribute, ast.NamedExpr, ast.Tuple, ast.List, ast.Dict, ast.IfExp, ast.GeneratorExp, ast.ListComp, ast.Subscript, ast.Call,
+    REFNODES = (ast.BoolOp, ast.Compare, ast.UnaryOp, _Lit, ast.Name, ast.Attribute, ast.NamedExpr, ast.Tuple, ast.List, ast.Dict, ast.IfExp, ast.GeneratorExp, ast.ListComp, ast.Subscript, ast.Call,
                 ast.JoinedStr, ast.Lambda, ast.SetComp, ast.DictComp)
 
     # ---- callables
@@ -528,7 +621,7 @@ class Ev01(AutoEvaluator):
                             node = st.value if isinstance(st, (ast.Assign, ast.AnnAssign)) and isinstance(t, ast.Name) else None
                 if isinstance(st, (ast.FunctionDef, ast.ClassDef)) and st.name == name:
                     n += 2
-            if n != 1 or not isinstance(node, (ast.Call, ast.Lambda)):
+            if n != 1 or not isinstance(node, (ast.Call, ast.Lambda, ast.Dict, ast.Tuple, ast.List, ast.Subscript)):
                 node = None
             cache[name] = node
         if node is None or name in self._folding:
@@ -539,7 +632,17 @@ class Ev01(AutoEvaluator):
         sub._folding = set(self._folding) | {name}
         sub.depth = self.depth + 1
         v = sub.evr(node)
-        return v if isinstance(v, FuncV) else None
+
+        def usable(x):
+            if isinstance(x, (FuncV, DictV)):
+                return True
+            if isinstance(x, tuple):
+                return all(usable(y) or (isinstance(y, F.Rat) and not y.depends_on("call")) for y in x)
+            u = unfn(x) if isinstance(x, F.Rat) else None
+            return bool(u) and u[0] in ("slice", "tuple")
+        if isinstance(node, ast.Call) and not isinstance(v, FuncV) and not isinstance(v, DictV):
+            return None          # an arbitrary module-level call is not evaluated
+        return v if usable(v) else None
 
     def callee_value(self, f):
         """the FuncV a callee expression denotes, else None"""
@@ -600,6 +703,11 @@ class Ev01(AutoEvaluator):
                 return r
         return Unknown(f"call of a {fv.kind} value that the evaluator cannot apply")
 
+    def call_with(self, fnode, values, at):
+        """call of the function the expression `fnode` denotes on already evaluated values"""
+        c = ast.copy_location(ast.Call(func=fnode, args=[lit(v) for v in values], keywords=[]), at)
+        return self.evr(ast.fix_missing_locations(c))
+
     def make_callable(self, d, node):
         """functools.partial / operator.attrgetter / operator.itemgetter objects"""
         args, kws = node.args, node.keywords
@@ -645,6 +753,9 @@ class Ev01(AutoEvaluator):
         c = const_of(v)
         if c is not None:
             return c
+        n = unsym(v)
+        if n in ("True", "False"):
+            return Fraction(1 if n == "True" else 0)       # True == 1 and False == 0 as dict keys
         return None
 
     def key_value(self, k):
@@ -690,6 +801,10 @@ class Ev01(AutoEvaluator):
                     return list(b.d.values())
                 return None
         v = self.evr(node)
+        if isinstance(v, IterV):
+            return v.rest()
+        if isinstance(v, Cols):
+            return v.refs()    # the column views of the array, one per sample
         if isinstance(v, (Hist, Block)):
             return None        # iterating a 2-D array walks its rows: not a history
         if isinstance(v, tuple):
@@ -773,7 +888,40 @@ class Ev01(AutoEvaluator):
         v = self._index_value(node)
         return repr(v), v
 
+    def slice_node(self, sl):
+        """a subscript written through a name / call whose value is a slice object or a tuple of them (`rows = slice(None, k)`, `np.s_[:, 1:]`,
+        a module-level constant) -> the literal ast.Slice / ast.Tuple it stands for; any other subscript unchanged"""
+        def conv(e):
+            if isinstance(e, (ast.Slice, ast.Constant)) or isinstance(e, _Lit) and not isinstance(e.v, F.Rat):
+                return e
+            if isinstance(e, ast.Tuple):
+                elts = [conv(x) for x in e.elts]
+                if any(a is not b for a, b in zip(elts, e.elts)):
+                    return ast.copy_location(ast.Tuple(elts=elts, ctx=ast.Load()), e)
+                return e
+            if isinstance(e, (ast.Name, ast.Attribute, ast.Call, ast.Subscript, ast.NamedExpr)):
+                if isinstance(e, ast.Name) and not isinstance(e, _Lit) and e.id in self.env and isinstance(self.env[e.id], REFS):
+                    return e
+                v = self.evr(e)
+                u = unfn(v) if isinstance(v, F.Rat) else None
+                if u and u[0] == "slice" and len(u[1]) == 3 and not any(isinstance(x, str) for x in u[1]):
+                    parts = [None if x.equals(NONE) else lit(x) for x in u[1]]
+                    return ast.copy_location(ast.Slice(lower=parts[0], upper=parts[1], step=parts[2]), e)
+                if u and u[0] == "tuple" and not any(isinstance(x, str) for x in u[1]) and any((unfn(x) or ("",))[0] == "slice" for x in u[1]):
+                    return ast.copy_location(ast.Tuple(elts=[conv(lit(x)) for x in u[1]], ctx=ast.Load()), e)
+            return e
+        try:
+            new = conv(sl)
+        except Unsupported:
+            return sl
+        if new is not sl:
+            ast.fix_missing_locations(new)
+        return new
+
     def subscript_value(self, node):
+        sl2 = self.slice_node(node.slice)
+        if sl2 is not node.slice:
+            node = ast.copy_location(ast.Subscript(value=node.value, slice=sl2, ctx=ast.Load()), node)
         if self.subscript is not None:
             r = self.subscript(node, self)
             if r is not NotImplemented:
@@ -789,8 +937,28 @@ class Ev01(AutoEvaluator):
             return base
         if isinstance(base, (Hist, Block)):
             return self.hist_load(base, sl)
+        if isinstance(base, Cols):
+            r = self.tuple_index(tuple(base.refs()), sl) if not isinstance(sl, ast.Tuple) else NotImplemented
+            if r is NotImplemented or (not isinstance(r, ColRef) and not (isinstance(r, tuple) and all(isinstance(x, ColRef) for x in r))):
+                base.block.hist.bad.append(("load", ast.unparse(sl)))
+                return Unknown(f"subscript {ast.unparse(node)[:60]} of a transposed history array")
+            return r
+        if isinstance(base, ColRef):
+            if is_full_slice(sl) or (isinstance(sl, ast.Constant) and sl.value is Ellipsis):
+                return base
+            v = base.block.get(base.col)
+            if is_unknown(v) or not isinstance(v, F.Rat):
+                return v
+            try:
+                return F.fn("idx", v, self._index_value(sl))
+            except Unsupported as e:
+                return Unknown(str(e))
         if isinstance(base, DictV):
-            k = self.key_of(self.evr(sl))
+            kv = self.evr(sl)
+            k = self.key_of(kv)
+            if k is None and base.d and all(isinstance(q, Fraction) and q in (0, 1) for q in base.d):
+                t = self.truthiness(kv)          # a table keyed by True / False, looked up with a flag of the object
+                k = None if t is None else Fraction(1 if t else 0)
             if k is None or k not in base.d:
                 return Unknown(f"key of {ast.unparse(node)[:60]} not in the dict")
             return base.d[k]
@@ -932,6 +1100,25 @@ class Ev01(AutoEvaluator):
                 blk.put(j, v, st)
 
     # ------------------------------------------------------------------------------------------------ statements
+    def run(self, stmts):
+        """a block.  The evaluated result is the one the function delivers when it delivers one: at a test that cannot be decided, an arm after which
+        every path ends in `raise` is not the path of a result, so the other arm is taken (guard clauses `if ok: return` ... `raise`, validation
+        blocks `if bad: raise`)"""
+        for i, st in enumerate(stmts):
+            if self.done:
+                break
+            if isinstance(st, ast.If) and id(st) not in self._forced:
+                rest = list(stmts[i + 1:])
+                r1, r2 = always_raises(list(st.body) + rest), always_raises(list(st.orelse) + rest)
+                if r1 != r2 and self.decide(st.test) is None:
+                    self._forced[id(st)] = r2          # body raises -> test taken as False; else-path raises -> True
+                    try:
+                        self.stmt(st)
+                    finally:
+                        self._forced.pop(id(st), None)
+                    continue
+            self.stmt(st)
+
     def stmt(self, st):
         if self.done:
             return
@@ -976,7 +1163,7 @@ class Ev01(AutoEvaluator):
             self.run(st.finalbody)
             return
         if isinstance(st, ast.If):
-            c = self.decide(st.test)
+            c = self._forced[id(st)] if id(st) in self._forced else self.decide(st.test)
             if any(isinstance(x, ast.NamedExpr) for x in ast.walk(st.test)):
                 self.ev(st.test)          # bind the walrus targets of the test
             if c is True:
@@ -1120,9 +1307,25 @@ class Ev01(AutoEvaluator):
                 return
             return super()._assign(target, v, st, aug)
         if isinstance(target, ast.Subscript):
+            sl2 = self.slice_node(target.slice)
+            if sl2 is not target.slice:
+                target = ast.copy_location(ast.Subscript(value=target.value, slice=sl2, ctx=ast.Store()), target)
             base = self.evr(target.value)
             if isinstance(base, (Hist, Block)):
                 self.hist_store(base, target.slice, v, st)
+                return
+            if isinstance(base, ColRef):
+                sl = target.slice
+                v = self.plain(v)
+                if (is_full_slice(sl) or (isinstance(sl, ast.Constant) and sl.value is Ellipsis)) and not isinstance(v, tuple):
+                    base.block.put(base.col, v, st)
+                else:
+                    base.block.hist.bad.append(("store", ast.unparse(target)))
+                    base.block.put(base.col, Unknown(f"store `{ast.unparse(target)[:60]}` into a part of a column view"), st)
+                return
+            if isinstance(base, Cols):
+                base.block.hist.bad.append(("store", ast.unparse(target)))
+                base.block.hist.poisoned = f"store `{ast.unparse(target)[:60]}` through a transposed view"
                 return
             if isinstance(base, DictV):
                 k = self.key_of(self.evr(target.slice))
@@ -1186,19 +1389,33 @@ class Ev01(AutoEvaluator):
         if is_unknown(node):
             self.poison_args(orig, f"passed to a call whose arguments could not be expanded: {node.why}"[:160])
             return node
-        # a callable value: local closure / lambda, functools.partial, attrgetter(...)(x), operator.add
+        # the callee as a value: a local closure / lambda, functools.partial, attrgetter(...)(x), operator.add -> applied here; a variable, a
+        # conditional expression, a table lookup or a call that yields a function (helper, bound method, library function) -> called by its name
         fv = self.callee_value(node.func)
         if fv is not None:
             return self.apply(fv, node)
-        # a call through a variable (or a conditional expression) that holds a function: a helper, a bound method, a library function
-        n = None
-        if isinstance(node.func, ast.Name) and node.func.id in self.env and node.func.id not in self.buffers:
-            n = unsym(self.env[node.func.id])
-            if n == node.func.id:
-                n = None
-        elif isinstance(node.func, (ast.IfExp, ast.NamedExpr)):
-            n = unsym(self.evr(node.func))
-        f = _dotted_node(n, node) if n is not None else None
+        fx = node.func
+        val = None
+        if isinstance(fx, _Lit):
+            val = fx.v
+        elif isinstance(fx, ast.Name):
+            if fx.id in self.env and fx.id not in self.buffers:
+                val = self.env[fx.id]
+        elif not isinstance(fx, ast.Attribute):
+            val = self.evr(fx)
+        if isinstance(val, FuncV):
+            return self.apply(val, node)
+        f = None
+        if isinstance(val, F.Rat):
+            n = unsym(val)
+            if n is not None and not (isinstance(fx, ast.Name) and not isinstance(fx, _Lit) and n == fx.id):
+                f = _dotted_node(n, node)
+            if f is None:
+                # a bound method held in a variable: `advance = self.E.dot; advance(x)` is `self.E.dot(x)`
+                u = unfn(val)
+                if u and u[0].startswith("attr:") and len(u[1]) == 1 and not isinstance(u[1][0], str) and u[0][5:].isidentifier():
+                    f = ast.copy_location(ast.Attribute(value=lit(u[1][0]), attr=u[0][5:], ctx=ast.Load()), node)
+                    ast.fix_missing_locations(f)
         if f is not None:
             new = ast.Call(func=f, args=node.args, keywords=node.keywords)
             ast.copy_location(new, node)
@@ -1254,27 +1471,50 @@ class Ev01(AutoEvaluator):
             return self.evr(ast.fix_missing_locations(ast.copy_location(ast.Attribute(value=args[0], attr=d.split(".")[1], ctx=ast.Load()), node)))
         if d in IDENT_FUNCS and len(args) == 1:
             return self.evr(args[0])
+        if d in ("accumulate", "itertools.accumulate") and 1 <= len(args) <= 2 and all(k.arg in ("func", "initial") for k in kws):
+            items = self.iter_items(args[0])
+            fnode = args[1] if len(args) == 2 else next((k.value for k in kws if k.arg == "func"), None)
+            init = next((k.value for k in kws if k.arg == "initial"), None)
+            if items is not None and len(items) <= self.LIMIT:
+                seq = ([self.evr(init)] if init is not None and not (isinstance(init, ast.Constant) and init.value is None) else []) + list(items)
+                out = []
+                for x in seq:
+                    if not out:
+                        out.append(x)
+                    elif fnode is None:
+                        out.append(self.evr(ast.fix_missing_locations(ast.copy_location(ast.BinOp(left=lit(out[-1]), op=ast.Add(), right=lit(x)), node))))
+                    else:
+                        out.append(self.call_with(fnode, [out[-1], x], node))
+                return IterV(out)
+            return NotImplemented
+        if d == "iter" and len(args) == 1 and not kws:
+            items = self.iter_items(args[0])
+            return IterV(items) if items is not None else NotImplemented
+        if d == "next" and 1 <= len(args) <= 2 and not kws:
+            it = self.evr(args[0])
+            if isinstance(it, IterV):
+                if it.pos < len(it.items):
+                    it.pos += 1
+                    return it.items[it.pos - 1]
+                return self.evr(args[1]) if len(args) == 2 else Unknown("next() of an exhausted iterator")
+            return NotImplemented
         if d in ("reduce", "functools.reduce") and 2 <= len(args) <= 3 and not kws:
-            fv = self.callee_value(args[0])
             items = self.iter_items(args[1])
-            if fv is not None and items is not None and len(items) <= self.LIMIT:
+            if items is not None and len(items) <= self.LIMIT:
                 items = ([self.evr(args[2])] if len(args) == 3 else []) + list(items)
                 if items:
                     acc = items[0]
                     for x in items[1:]:
-                        c = ast.copy_location(ast.Call(func=lit(fv), args=[lit(acc), lit(x)], keywords=[]), node)
-                        acc = self.apply(fv, ast.fix_missing_locations(c))
+                        acc = self.call_with(args[0], [acc, x], node)
                     return acc
             return NotImplemented
-        if d == "map" and len(args) == 2 and not kws:
-            fv = self.callee_value(args[0])
-            items = self.iter_items(args[1])
-            if items is not None and len(items) <= self.LIMIT and (fv is not None or dotted(args[0]) is not None):
-                out = []
-                for x in items:
-                    c = ast.copy_location(ast.Call(func=lit(fv) if fv is not None else args[0], args=[lit(x)], keywords=[]), node)
-                    out.append(self.evr(ast.fix_missing_locations(c)))
-                return tuple(out)
+        if d in ("map", "itertools.starmap", "starmap") and len(args) >= 2 and not kws:
+            its = [self.iter_items(a) for a in args[1:]]
+            if all(i is not None and len(i) <= self.LIMIT for i in its):
+                if d == "map":
+                    return tuple(self.call_with(args[0], list(xs), node) for xs in zip(*its))
+                if len(its) == 1 and all(isinstance(x, tuple) for x in its[0]):
+                    return tuple(self.call_with(args[0], list(xs), node) for xs in its[0])
             return NotImplemented
         if d in ("SimpleNamespace", "types.SimpleNamespace") and not args:
             return DictV({k.arg: self.ref_of(k.value) for k in kws if k.arg is not None})       # a namespace object: fields by reference
@@ -1289,11 +1529,25 @@ class Ev01(AutoEvaluator):
                 self._assign(ast.copy_location(ast.Attribute(value=args[0], attr=s, ctx=ast.Store()), node), self.evr(args[2]), node)
                 return NONE
             return NotImplemented
-        if isinstance(node.func, ast.Attribute) and node.func.attr == "update" and isinstance(node.func.value, ast.Call) \
-                and dotted(node.func.value.func) == "vars" and len(node.func.value.args) == 1 and not args:
-            obj = node.func.value.args[0]
-            for k in kws:
-                self._assign(ast.copy_location(ast.Attribute(value=obj, attr=k.arg, ctx=ast.Store()), node), self.evr(k.value), node)
+        if isinstance(node.func, ast.Attribute) and node.func.attr == "update" and isinstance(node.func.value, (ast.Call, ast.Attribute)) \
+                and ((isinstance(node.func.value, ast.Call) and dotted(node.func.value.func) == "vars" and len(node.func.value.args) == 1)
+                     or (isinstance(node.func.value, ast.Attribute) and node.func.value.attr == "__dict__")) and len(args) <= 1:
+            obj = node.func.value.args[0] if isinstance(node.func.value, ast.Call) else node.func.value.value
+            pairs = []
+            if args:
+                m = self.evr(args[0])
+                if isinstance(m, DictV):
+                    pairs = list(m.d.items())
+                else:
+                    items = self.iter_items(args[0])
+                    if items is None or not all(isinstance(it, tuple) and len(it) == 2 and as_str(it[0]) is not None for it in items):
+                        return Unknown("vars(...).update(x) with an x the evaluator cannot enumerate")
+                    pairs = [(as_str(k_), v_) for k_, v_ in items]
+            pairs += [(k.arg, self.evr(k.value)) for k in kws if k.arg is not None]
+            if any(not isinstance(k_, str) or not k_.isidentifier() for k_, _ in pairs):
+                return Unknown("vars(...).update with a key that is not an attribute name")
+            for k_, v_ in pairs:
+                self._assign(ast.copy_location(ast.Attribute(value=obj, attr=k_, ctx=ast.Store()), node), v_, node)
             return NONE
         if d == "dict":
             out = {}
@@ -1329,11 +1583,15 @@ class Ev01(AutoEvaluator):
             return F.fn("slice", *[need(v) for v in vals])
         if d in ("np.transpose", "numpy.transpose") and len(args) == 1 and not kws:
             b = self.evr(args[0])
+            if isinstance(b, (Hist, Block, Cols)):
+                return self.transposed(b)
             if isinstance(b, (tuple,) + REFS) or is_unknown(b) or self.erase_T:
                 return b
             return F.fn("attr:T", need(b))
         if isinstance(node.func, ast.Attribute) and node.func.attr == "transpose" and not args and not kws:
             b = self.evr(node.func.value)
+            if isinstance(b, (Hist, Block, Cols)):
+                return self.transposed(b)
             if isinstance(b, (tuple,) + REFS) or is_unknown(b) or self.erase_T:
                 return b
             return F.fn("attr:T", need(b))
@@ -1351,6 +1609,20 @@ class Ev01(AutoEvaluator):
             items = self.iter_items(node)
             if items is not None:
                 return tuple(items)
+            return NotImplemented
+        if isinstance(node.func, ast.Attribute) and node.func.attr == "get" and 1 <= len(args) <= 2 and not kws:
+            b = self.evr(node.func.value)
+            if isinstance(b, DictV):
+                k = self.key_of(self.evr(args[0]))
+                if k is None:
+                    return Unknown("dict.get with a key that is not a constant")
+                if k in b.d:
+                    return b.d[k]
+                return self.evr(args[1]) if len(args) == 2 else NONE
+        if d == "bool" and len(args) == 1 and not kws:
+            t = self.decide(args[0])
+            if t is not None:
+                return F.sym("True" if t else "False")
             return NotImplemented
         if d in ("np.zeros", "np.empty") and self.nt is not None and args and isinstance(args[0], (ast.Tuple, ast.List)) and len(args[0].elts) == 2:
             c = const_of(self.ev(args[0].elts[1]))
@@ -1457,7 +1729,13 @@ class ModeEv(Ev01):
             if n in ("None", "True", "False") or as_str(v) is not None or (n is not None and n in self.inl):
                 return v                              # not an array
             return self._evr_name_box(node)          # a bare array name in a reference position: the array itself
-        return self.evr(node)
+        v = self.evr(node)
+        if isinstance(v, F.Rat) and not isinstance(node, (ast.Name, ast.Constant)):
+            n = unsym(v)
+            if not (n in ("None", "True", "False") or as_str(v) is not None or (n is not None and (n in self.inl or "." in n)) or unfn(v) is not None and
+                    unfn(v)[0] in ("slice", "tuple")):
+                return Box(v)                         # an array computed in place (`A / 2`, `F.copy()`): a new array with its own identity
+        return v
 
     def unfollowed(self, d, node):
         """a call of a function of the analysed module / class that is not followed: it may fill its array arguments in place"""
@@ -1680,13 +1958,57 @@ class Sem01(Sem):
             ev.run(fn.body)
 
 
+def imported_funcs(ctx, rel):
+    """{call name: FunctionDef} for the functions a module of the package imports from its sibling modules: `from ._utilities import f [as g]` -> g,
+    `from . import _utilities [as u]` / `from pyyeti.ode import _utilities` -> u.f for every module-level f"""
+    import os
+    m = ctx.src.mod(rel)
+    pkg = os.path.dirname(rel)
+    out = {}
+
+    def resolve(level, modname):
+        base = pkg
+        for _ in range(max(level - 1, 0)):
+            base = os.path.dirname(base)
+        if level == 0:
+            base = ""
+        path = os.path.join(base, *(modname.split(".") if modname else []))
+        for cand in (path + ".py", os.path.join(path, "__init__.py")):
+            if os.path.exists(os.path.join(ctx.src.repo, cand)):
+                return cand
+        return None
+
+    for st in m.tree.body:
+        if isinstance(st, ast.ImportFrom):
+            src = resolve(st.level, st.module or "")
+            for al in st.names:
+                name = al.asname or al.name
+                sub = resolve(st.level, ((st.module + ".") if st.module else "") + al.name)
+                try:
+                    if sub and sub.endswith(".py") and not sub.endswith("__init__.py"):
+                        for q, f in ctx.src.mod(sub).funcs.items():
+                            if "." not in q and "#" not in q:
+                                out.setdefault(f"{name}.{q}", f)
+                    elif src and src.endswith(".py"):
+                        f = ctx.src.mod(src).funcs.get(al.name)
+                        if f is not None:
+                            out.setdefault(name, f)
+                except Exception:  # noqa
+                    continue
+    return out
+
+
 def helpers(ctx, *specs, exclude=()):
     """inline table over several modules / classes: specs are (rel, cls or None).  A method is reachable as `self.name` whatever class of the
-    hierarchy defines it; module-level functions by bare name."""
+    hierarchy defines it; module-level functions by bare name; functions imported from sibling modules of the package under their local name."""
     from .sem import module_funcs
     out = {}
     for rel, cls in specs:
         for k, v in module_funcs(ctx, rel, cls=cls).items():
+            if k not in exclude and k.split(".")[-1] not in exclude:
+                out.setdefault(k, v)
+    for rel, cls in specs:
+        for k, v in imported_funcs(ctx, rel).items():
             if k not in exclude and k.split(".")[-1] not in exclude:
                 out.setdefault(k, v)
     return out
